@@ -432,7 +432,9 @@ pub fn rejected_frame(rng: &mut Rng, h: &Hist) -> (Vec<u8>, Option<u32>, &'stati
                 d.payload = vec![4, 5];
             }
             let mut b = d.build().unwrap();
-            b[0] = *rng.pick(&[0x61u8, 0x62, 0x63, 0xa1, 0xa3, 0xe0, 0xc0, 0x20, 0x00]);
+            // (builder X: 0x40 / 0x80 — an uplink MType over a frame MIC'd as a downlink, Dir = 1; the Dir = 0
+            // variant is class rej-uplink-echo)
+            b[0] = *rng.pick(&[0x61u8, 0x62, 0x63, 0xa1, 0xa3, 0xe0, 0xc0, 0x20, 0x00, 0x40, 0x80]);
             let n = b.len() - 4;
             let mic = crate::refcodec::data_mic(&h.nwk, &b[..n], 1, &b[1..5], fcnt);
             b[n..].copy_from_slice(&mic);
